@@ -29,6 +29,7 @@ Inductive trap :=
 | TrapOverflow      (* usize wrap in hashmap roundpow2 (model-level detection) *)
 | TrapCompact       (* rehash's internal check(j == self.size) *)
 | TrapMem           (* internal access outside the allocated storage: memory corruption *)
+| TrapUnpack        (* 'unpack out of range' *)
 | TrapFuel.         (* fuel exhausted: the real loop would not terminate *)
 
 Inductive res (A : Type) :=
@@ -53,10 +54,21 @@ Section Storage.
   (* span[i] = x *)
   Definition sset (i : nat) (x : A) (l : list A) : res (list A) :=
     if i <? length l then Ok (overwrite i [x] l) else Trap TrapMem.
-  (* memory.move(&l[dst], &l[src], n) *)
+  (* memory.move(&l[dst], &l[src], n): memmove, element by element - ascending when the destination is not above
+     the source, descending otherwise, so that overlapping ranges are copied correctly *)
+  Fixpoint mv_up (n dst src : nat) (l : list A) : res (list A) :=
+    match n with
+    | 0 => Ok l
+    | S n' => e <- sget src l ;; l' <- sset dst e l ;; mv_up n' (S dst) (S src) l'
+    end.
+  Fixpoint mv_down (n dst src : nat) (l : list A) : res (list A) :=
+    match n with
+    | 0 => Ok l
+    | S n' => e <- sget (src + n') l ;; l' <- sset (dst + n') e l ;; mv_down n' dst src l'
+    end.
   Definition smove (dst src n : nat) (l : list A) : res (list A) :=
     if (dst + n <=? length l) && (src + n <=? length l)
-    then Ok (overwrite dst (firstn n (skipn src l)) l) else Trap TrapMem.
+    then (if dst <=? src then mv_up n dst src l else mv_down n dst src l) else Trap TrapMem.
   (* memory.set/zero(&l[at], n) *)
   Definition sfill (at_ n : nat) (x : A) (l : list A) : res (list A) :=
     if at_ + n <=? length l then Ok (overwrite at_ (repeat x n) l) else Trap TrapMem.
@@ -161,6 +173,22 @@ Section Vector.
   Definition vec_assign (pos : nat) (x : T) (v : vec) : res vec :=
     if vsize v <=? pos then Trap TrapPos else d <- sset pos x (vdata v) ;; Ok (mkvec d (vsize v)).
 
+  (* the `for i ... self.data[i] = values[i]` loops of __convert *)
+  Fixpoint fill_from (i : nat) (xs : list T) (d : list T) : res (list T) :=
+    match xs with
+    | [] => Ok d
+    | x :: tl => d' <- sset i x d ;; fill_from (S i) tl d'
+    end.
+
+  (* vectorT.__convert(values): a fresh vector holding the values (`local v: vector(T) = values`) *)
+  Definition vec_convert (xs : list T) : res vec :=
+    let v1 := vec_reserve (length xs) vec_empty in
+    d <- fill_from 0 xs (vdata v1) ;;
+    Ok (mkvec d (length xs)).
+
+  (* destroy: storage freed, zeroed state *)
+  Definition vec_destroy (v : vec) : vec := vec_empty.
+
   Definition vec_len (v : vec) := vsize v.
   (* what the public observers show: #v and v[0..#v-1] *)
   Definition vec_contents (v : vec) : list T := firstn (vsize v) (vdata v).
@@ -168,8 +196,10 @@ Section Vector.
   Inductive cop :=
   | OPush (x : T) | OPop | OInsert (pos : nat) (x : T) | ORemove (pos : nat) | ORemoveValue (x : T)
   | ORemoveIf (p : T -> bool) | OResize (n : nat) | OReserve (n : nat) | OClear | OCopy
-  | OAt (pos : nat) | OAssign (pos : nat) (x : T).
-  Inductive cret := RUnit | RVal (x : T) | RBool (b : bool).
+  | OAt (pos : nat) | OAssign (pos : nat) (x : T)
+  | ODestroy | OConvert (xs : list T)       (* v:destroy() ; v = (fresh container converted from xs) *)
+  | OUnpack (i j : nat).                    (* sequence only: s:unpack(i, j); the identity on vectors *)
+  Inductive cret := RUnit | RVal (x : T) | RBool (b : bool) | RVals (l : list T).
 
   Definition vec_step (o : cop) (v : vec) : res (vec * cret) :=
     match o with
@@ -185,6 +215,9 @@ Section Vector.
     | OCopy => Ok (vec_copy v, RUnit)
     | OAt pos => x <- vec_at pos v ;; Ok (v, RVal x)
     | OAssign pos x => v' <- vec_assign pos x v ;; Ok (v', RUnit)
+    | ODestroy => Ok (vec_destroy v, RUnit)
+    | OConvert xs => v' <- vec_convert xs ;; Ok (v', RUnit)
+    | OUnpack _ _ => Ok (v, RUnit)
     end.
 
   (* index of the first element e with e == x *)
@@ -219,6 +252,9 @@ Section Vector.
     | OCopy => Ok (l, RUnit)
     | OAt pos => match nth_error l pos with Some x => Ok (l, RVal x) | None => Trap TrapPos end
     | OAssign pos x => if pos <? length l then Ok (l_assign pos x l, RUnit) else Trap TrapPos
+    | ODestroy => Ok ([], RUnit)
+    | OConvert xs => Ok (xs, RUnit)
+    | OUnpack _ _ => Ok (l, RUnit)
     end.
 End Vector.
 
@@ -336,10 +372,27 @@ Section Sequence.
   Definition seq_set (pos : nat) (x : T) (s0 : seq) : res seq :=
     s <- seq_atindex pos s0 ;; d <- sset pos x (sdata s) ;; Ok (mkseq (sinit s) d (ssize s)).
 
+  (* sequenceT.__convert(values) *)
+  Definition seq_convert (xs : list T) : res seq :=
+    s1 <- seq_reserve (length xs) seq_empty ;;
+    d <- fill_from T 1 xs (sdata s1) ;;
+    Ok (mkseq true d (length xs)).
+
+  Definition seq_destroy (s : seq) : seq := seq_empty.
+
   Definition seq_len (s : seq) := if sinit s then ssize s else 0.
   Definition seq_capacity (s : seq) := if negb (sinit s) || (seq_capn s =? 0) then 0 else seq_capn s - 1.
   (* observers: #s and s[1..#s] *)
   Definition seq_contents (s : seq) : list T := firstn (seq_len s) (skipn 1 (sdata s)).
+  (* unpack(i, j): assert(i >= 1 and j <= #self and i <= j); then self[i], ..., self[j] through __atindex *)
+  Fixpoint seq_unpack_loop (n k : nat) (s : seq) : res (seq * list T) :=
+    match n with
+    | 0 => Ok (s, [])
+    | S n' => p <- seq_get k s ;; q <- seq_unpack_loop n' (S k) (fst p) ;; Ok (fst q, snd p :: snd q)
+    end.
+  Definition seq_unpack (i j : nat) (s : seq) : res (seq * list T) :=
+    if (1 <=? i) && (j <=? seq_len s) && (i <=? j) then seq_unpack_loop (j - i + 1) i s else Trap TrapUnpack.
+
   Definition seq_step (o : cop T) (s : seq) : res (seq * cret T) :=
     match o with
     | OPush _ x => s' <- seq_push x s ;; Ok (s', RUnit _)
@@ -354,6 +407,9 @@ Section Sequence.
     | OCopy _ => Ok (seq_copy s, RUnit _)
     | OAt _ pos => p <- seq_get pos s ;; Ok (fst p, RVal _ (snd p))
     | OAssign _ pos x => s' <- seq_set pos x s ;; Ok (s', RUnit _)
+    | ODestroy _ => Ok (seq_destroy s, RUnit _)
+    | OConvert _ xs => s' <- seq_convert xs ;; Ok (s', RUnit _)
+    | OUnpack _ i j => p <- seq_unpack i j s ;; Ok (fst p, RVals _ (snd p))
     end.
 
   (* the abstract sequence: the reserved slot 0 and the list of elements 1..n.
@@ -388,6 +444,10 @@ Section Sequence.
                          if pos =? length l + 1 then Ok ((z, l ++ [x]), RUnit _) else
                          if pos <=? length l then Ok ((z, l_assign T (pos - 1) x l), RUnit _)
                          else Trap TrapPos
+    | ODestroy _ => Ok ((dflt, []), RUnit _)
+    | OConvert _ xs => Ok ((dflt, xs), RUnit _)
+    | OUnpack _ i j => if (1 <=? i) && (j <=? length l) && (i <=? j)
+                       then Ok ((z, l), RVals _ (firstn (j - i + 1) (skipn (i - 1) l))) else Trap TrapUnpack
     end.
   Definition seq_slot0 (s : seq) : T := match sdata s with x :: _ => x | [] => dflt end.
 End Sequence.
@@ -486,7 +546,26 @@ Section HashMap.
     | S n' => m1 <- hm_link i m ;; hm_fill_loop n' (S i) m1
     end.
 
-  (* the shift of filled nodes when shrinking (stable compaction, freed cells zeroed) *)
+  (* the shift of filled nodes when shrinking, as written in rehash: skip the filled prefix, move every later
+     filled node down to the next free position j, zero everything from j on; returns the nodes and j *)
+  Fixpoint cmp_skip (rest : list hnode) (j : nat) : nat :=
+    match rest with
+    | nd :: tl => if nfilled nd then cmp_skip tl (S j) else j
+    | [] => j
+    end.
+  Fixpoint cmp_move (n i j : nat) (ns : list hnode) : res (list hnode * nat) :=
+    match n with
+    | 0 => Ok (ns, j)
+    | S n' => e <- sget i ns ;;
+              if nfilled e then ns' <- sset j e ns ;; cmp_move n' (S i) (S j) ns' else cmp_move n' (S i) j ns
+    end.
+  Definition hm_compact_loop (ns : list hnode) : res (list hnode * nat) :=
+    let j0 := cmp_skip ns 0 in
+    r <- cmp_move (length ns - j0) j0 j0 ns ;;
+    d <- sfill (snd r) (length ns - snd r) zero_node (fst r) ;;
+    Ok (d, snd r).
+
+  (* what the loop computes (proved in ProofsHM3): stable compaction, freed cells zeroed *)
   Definition hm_compact (nodes : list hnode) : list hnode :=
     let f := filter nfilled nodes in
     f ++ repeat zero_node (length nodes - length f).
@@ -501,8 +580,8 @@ Section HashMap.
     let nc := if (0 <? bc) && (nc0 <=? hsize m) then hsize m + 1 else nc0 in
     let n0 := length (hnodes m) in
     nodes1 <- (if (nc <? n0) && (0 <? n0) && (0 <? nc) then
-                 let c := hm_compact (hnodes m) in
-                 if length (filter nfilled (hnodes m)) =? hsize m then Ok c else Trap TrapCompact
+                 r <- hm_compact_loop (hnodes m) ;;
+                 if snd r =? hsize m then Ok (fst r) else Trap TrapCompact     (* check(j == self.size) *)
                else Ok (hnodes m)) ;;
     let nodes2 := srealloc zero_node nc nodes1 in
     let buckets2 := repeat (@None nat) bc in
@@ -652,7 +731,7 @@ Section HashMap.
   Inductive hop :=
   | HSet (k : K) (v : V) | HGet (k : K) | HPeek (k : K) | HHas (k : K) | HHasGet (k : K)
   | HRemove (k : K) | HErase (k : K) | HClear | HReserve (n : nat) | HRehash (n : nat)
-  | HIterErase (p : K -> V -> bool) | HPairs | HMapVals (f : V -> V).
+  | HIterErase (p : K -> V -> bool) | HPairs | HMapVals (f : V -> V) | HDestroy.
   Inductive hret :=
   | HUnit | HVal (v : V) | HOpt (o : option V) | HBool (b : bool) | HBoolVal (b : bool) (v : V)
   | HList (l : list (K * V)).
@@ -675,6 +754,7 @@ Section HashMap.
     | HIterErase p => r <- hm_pairs_erase p m ;; Ok (snd r, HList (fst r))
     | HPairs => r <- hm_pairs m ;; Ok (m, HList r)
     | HMapVals f => Ok (hm_mapvals f m, HUnit)
+    | HDestroy => Ok (hm_empty, HUnit)
     end.
 
   Fixpoint al_get (k : K) (al : list (K * V)) : option V :=
@@ -712,6 +792,7 @@ Section HashMap.
     | HIterErase p => Ok (filter (fun kv => negb (p (fst kv) (snd kv) && keqb (fst kv) (fst kv))) al, HList al)
     | HPairs => Ok (al, HList al)
     | HMapVals f => Ok (map (fun kv => (fst kv, f (snd kv))) al, HUnit)
+    | HDestroy => Ok ([], HUnit)
     end.
 End HashMap.
 
@@ -868,7 +949,7 @@ Section DList.
   | LPushFront (x : T) | LPushBack (x : T) | LPopFront | LPopBack
   | LInsertBefore (v x : T)     (* insert(find(v), x) *)
   | LEraseValue (v : T)         (* p = find(v); if p then erase(p) *)
-  | LFind (v : T) | LClear | LEmpty | LEraseNil.
+  | LFind (v : T) | LClear | LEmpty | LEraseNil | LDestroy.
   Inductive lret :=
   | LUnit | LVal (x : T) | LNext (o : option T) | LNotFound | LIdx (o : option nat) | LBool (b : bool).
 
@@ -903,6 +984,7 @@ Section DList.
     | LClear => l' <- dl_clear l ;; Ok (l', LUnit)
     | LEmpty => Ok (l, LBool (dl_isempty l))
     | LEraseNil => r <- dl_erase None l ;; Ok (fst r, LUnit)
+    | LDestroy => l' <- dl_clear l ;; Ok (l', LUnit)
     end.
 
   Definition ll_step (o : lop) (l : list T) : res (list T * lret) :=
@@ -923,6 +1005,7 @@ Section DList.
     | LClear => Ok ([], LUnit)
     | LEmpty => Ok (l, LBool (match l with [] => true | _ => false end))
     | LEraseNil => Trap TrapNilNode
+    | LDestroy => Ok ([], LUnit)
     end.
 End DList.
 
@@ -1019,7 +1102,8 @@ Section StringBuilder.
   | BPwc (n : nat) (xs : list Z)     (* prepare(n); write xs into the span; commit(#xs) *)
   | BRollback (n : nat) | BResize (n : nat) | BClear | BPromote
   | BCommitOver (n d : nat)          (* prepare(n); commit(span.size + 1 + d): more than was prepared *)
-  | BPrepare (n : nat).
+  | BPrepare (n : nat)
+  | BDestroy.
   Inductive bret := BUnit | BBool (b : bool) | BOkN (b : bool) (n : nat) | BBytes (l : list Z).
 
   Definition sb_step (o : bop) (b : sb) : res (sb * bret) :=
@@ -1033,6 +1117,7 @@ Section StringBuilder.
     | BPromote => Ok (sb_empty, BBytes (sb_view b))
     | BCommitOver n d => p <- sb_prepare n b ;; b' <- sb_commit (snd p + 1 + d) (fst p) ;; Ok (b', BUnit)
     | BPrepare n => p <- sb_prepare n b ;; Ok (fst p, BUnit)
+    | BDestroy => Ok (sb_empty, BUnit)
     end.
 
   (* the byte string the builder implements *)
@@ -1047,6 +1132,7 @@ Section StringBuilder.
     | BPromote => Ok ([], BBytes l)
     | BCommitOver n d => Trap TrapNoSpace
     | BPrepare n => Ok (l, BUnit)
+    | BDestroy => Ok ([], BUnit)
     end.
   (* ---- allocation failure.  [ok n] tells whether the allocator grants a block of n bytes; a refused
      (re)allocation leaves the span as it was (allocator.nelua spanrealloc0).  stringbuilderT_grow then returns
